@@ -1,5 +1,6 @@
 ------------------------------ MODULE MC_FiberLaw ------------------------------
-(* Bounded instance for C05: four DIFFERENT fibres (scalar and per-frequency loss coefficient, lumped losses,         *)
+(* Bounded instance for C05: four DIFFERENT fibres (scalar and per-frequency loss coefficient - tables listed by        *)
+(* increasing frequency and by increasing wavelength -, lumped losses,                                                *)
 (* connectors, padding att_in), one ROADM crossing "R" and one amplifier "A"; every assembly of 2-4 of the fibres      *)
 (* with R and A, crossed in every order.  Own contributions are abstract pairwise-distinct integers here.             *)
 EXTENDS FiberLaw, Json, TLC
@@ -17,8 +18,9 @@ S(attIn, conIn, conOut, lumps, lenKm, alpha) ==
 MCSpan == [e \in Fib |->
    CASE e = "F1" -> S(0,        500000, 500000, <<>>,                                 80,  <<P(0, 200)>>)
      [] e = "F2" -> S(1500000,  200000, 700000, <<L(10, 1 * dB), L(30, 500000)>>,     50,  <<P(0, 220)>>)
-     [] e = "F3" -> S(0,        0,      300000, <<L(50, 2 * dB)>>,                    100, <<P(191000, 220), P(193500, 200), P(196000, 210)>>)
-     [] e = "F4" -> S(3 * dB,   100000, 100000, <<>>,                                 25,  <<P(0, 190)>>)]
+     \* F3: per-frequency table listed by increasing WAVELENGTH (decreasing frequency); F4: listed by increasing frequency
+     [] e = "F3" -> S(0,        0,      300000, <<L(50, 2 * dB)>>,                    100, <<P(196000, 210), P(193500, 200), P(191000, 220)>>)
+     [] e = "F4" -> S(3 * dB,   100000, 100000, <<>>,                                 25,  <<P(191000, 190), P(196000, 210)>>)]
 Idx(e) == CASE e = "F1" -> 1 [] e = "F2" -> 2 [] e = "F3" -> 3 [] e = "F4" -> 4 [] e = "R" -> 5 [] e = "A" -> 6
 MCDCd  == [e \in Ids |-> [c \in MCChan |-> IF e \in Fib THEN 1000 * Idx(e) * Idx(e) + 10 * c ELSE 0]]
 MCDLat == [e \in Ids |-> IF e \in Fib THEN 7 * Idx(e) * Idx(e) + 1 ELSE 0]
